@@ -367,6 +367,7 @@ def shared_handles(run, tier, seed):
         rv, _ = shared.run_instance('C12_shared_' + inv, invariants=[inv], dump=False, MaxRows=3, InitLens=[1], Modes2=['r+'])
         if rv.errors or not rv.violation:
             raise Machinery('Shared.tla: %s is not violated - the stale-handle behaviour is not in the model' % inv)
+    unbounded_safe(run)
     r, g = shared.run_instance('C12_shared')
     tlc.must_pass(r, 'MC_C12_shared')
     tlc.check_coverage(r, ['H_Read', 'H_Append', 'H_Truncate', 'H_SetItem', 'H_Reopen'], 'MC_C12_shared')
@@ -415,6 +416,48 @@ def shared_handles(run, tier, seed):
                            'config': x['cfg']}, {'kind': 'shared-edge', 'state': st, 'call': [x['name'], x['args']]})
     run.add('shared_handle_edge_classes', len(seen))
     run.add('traces_validated_against_impl', len(res))
+
+
+def unbounded_safe(run):
+    """Apalache: `no call through a stale handle => description and file agree` as an inductive invariant
+    (spec/apalache/SharedInd.tla: any row values, lengths and indices; sequences up to the Gen bound), and the
+    control that a broken append is rejected; TLC: the closed forms it uses equal the PySlice operators"""
+    import subprocess
+    import re
+    spec = os.path.join(os.path.dirname(os.path.dirname(os.path.dirname(os.path.abspath(__file__)))), 'spec')
+    wd = tempfile.mkdtemp(prefix='darrapa_')
+    try:
+        for f in ('SharedInd.tla', 'ClosedForms.tla'):
+            shutil.copy(os.path.join(spec, 'apalache', f), wd)
+        shutil.copy(os.path.join(spec, 'PySlice.tla'), wd)
+        rc = tlc.run('ClosedForms', 'INIT Init\nNEXT Next\n', wd=wd, workers=1, coverage=False, timeout=300)
+        if rc.errors or rc.violation:
+            raise Machinery('closed forms of SharedInd.tla differ from PySlice: %s' % (rc.errors[:2],))
+        text = open(os.path.join(wd, 'SharedInd.tla')).read()
+        bad = text.replace("dlen' = hlen[h] + Len(c) /\\", "dlen' = hlen[h] + Len(c) + 1 /\\").replace('MODULE SharedInd', 'MODULE SharedIndBad')
+        if bad.count('+ 1 /') != 1:
+            raise Machinery('control mutation of SharedInd.tla did not apply')
+        with open(os.path.join(wd, 'SharedIndBad.tla'), 'w') as f:
+            f.write(bad)
+        res = {}
+        for mod in ('SharedInd', 'SharedIndBad'):
+            try:
+                p = subprocess.run(['apalache-mc', 'check', '--init=IndInit', '--inv=IndInv', '--length=1',
+                                    '--out-dir=' + os.path.join(wd, 'out'), mod + '.tla'], cwd=wd, stdout=subprocess.PIPE,
+                                   stderr=subprocess.STDOUT, text=True, timeout=900)
+            except FileNotFoundError:
+                run.assumptions.append('apalache-mc not available: the unbounded inductive check of Shared.Safe was skipped')
+                return
+            m = re.search(r'The outcome is: (\w+)', p.stdout)
+            res[mod] = m.group(1) if m else 'unknown: ' + p.stdout[-300:]
+        if res['SharedInd'] != 'NoError':
+            raise Machinery('Apalache: the inductive step of Shared.Safe fails: %s' % res['SharedInd'])
+        if res['SharedIndBad'] != 'Error':
+            raise Machinery('Apalache control: a broken append was not rejected (%s)' % res['SharedIndBad'])
+        run.cov['apalache'] = {'SharedInd IndInv (inductive, length 1)': 'NoError', 'control SharedIndBad': 'Error'}
+        run.add('apalache_inductive_checks', 2)
+    finally:
+        shutil.rmtree(wd, ignore_errors=True)
 
 
 def _freeze(x):
